@@ -30,6 +30,9 @@ enum Expect {
     AtMost,
     /// nothing special: the construct is legal
     Nothing,
+    /// this error event, carrying the send id of the fault's <send>, must have been raised by the end of the run
+    /// (a delayed send fails when it is delivered, on the timer thread)
+    Later(&'static str),
 }
 
 struct Fault {
@@ -73,6 +76,9 @@ fn catalogue(k: usize, dead_session: Option<u32>) -> Vec<Fault> {
         Fault { kind: "huge-delay", content: format!("<send id=\"{}\" event=\"x\" delay=\"9999999999999999s\"/>", id), expect: Expect::AtMost, aborts_block: None },
         Fault { kind: "huge-delayexpr", content: format!("<send id=\"{}\" event=\"x\" delayexpr=\"'9999999999999999s'\"/>", id), expect: Expect::AtMost, aborts_block: None },
         Fault { kind: "large-delay", content: format!("<send id=\"{}\" event=\"x\" delay=\"99999999999d\"/>", id), expect: Expect::AtMost, aborts_block: None },
+        Fault { kind: "delayed-unknown-session", content: format!("<send id=\"{}\" target=\"#_scxml_99\" event=\"x\" delay=\"2ms\"/>", id), expect: Expect::Later("error.communication"), aborts_block: Some(false) },
+        Fault { kind: "delayed-unknown-invokeid", content: format!("<send id=\"{}\" target=\"#_nosuchinvoke\" event=\"x\" delay=\"1ms\"/>", id), expect: Expect::Later("error.communication"), aborts_block: Some(false) },
+        Fault { kind: "delayed-malformed-target", content: format!("<send id=\"{}\" target=\"not-a-target\" event=\"x\" delay=\"3ms\"/>", id), expect: Expect::Later("error.execution"), aborts_block: Some(false) },
         Fault { kind: "cancel-unknown", content: "<cancel sendid=\"never-sent\"/>".into(), expect: Expect::Nothing, aborts_block: Some(false) },
         Fault { kind: "cancel-bad-expr", content: "<cancel sendidexpr=\"nosuchvar\"/>".into(), expect: Expect::AtMost, aborts_block: None },
         Fault { kind: "foreach-noncollection", content: "<foreach array=\"x\" item=\"it\"><log expr=\"it\"/></foreach>".into(), expect: Expect::Must("error.execution"), aborts_block: Some(true) },
@@ -190,6 +196,11 @@ impl Property for C12Prop {
             main_idx = 0usize;
         }
         docs.push(DocSrc { name: "faulty".into(), xml: doc(&chosen, &inv), via_rfsm: rng.chance(1, 10), model: None });
+        // jitter clock: delayed sends become due while the session is still busy with the block that issued them
+        let jitter = rng.chance(1, 2);
+        if jitter {
+            script.push(Step::Jitter { on: true });
+        }
         script.push(Step::Start { doc: main_idx });
         let sess = main_idx;
         // order of fault events
@@ -213,7 +224,10 @@ impl Property for C12Prop {
             }
         }
         script.push(Step::Quiesce);
-        script.push(Step::DrainTimers { max: 6 });
+        if jitter {
+            script.push(Step::Jitter { on: false });
+        }
+        script.push(Step::DrainTimers { max: 12 });
         let fault_plan = rng.below(8);
         if fault_plan == 0 {
             script.push(Step::Shutdown);
@@ -372,6 +386,15 @@ impl Property for C12Prop {
         if let Some(m) = cur.take() {
             macros.push(m);
         }
+        // error events of delayed sends arrive whenever their timer fires, i.e. inside the macrostep of whatever
+        // event is being processed then: they are attributed by their send id, not by the macrostep
+        let delayed_ids: Vec<String> = v
+            .sc
+            .notes
+            .iter()
+            .filter(|(k, val)| k.starts_with("f.") && val.contains("|Later("))
+            .map(|(k, _)| format!("s{}", k.trim_start_matches("f.")))
+            .collect();
         let mut exercised = 0;
         for m in &macros {
             let note = match v.sc.notes.get(&m.ev) {
@@ -392,12 +415,34 @@ impl Property for C12Prop {
             }
             exercised += 1;
             verdict.evaluations += 1;
-            let names: Vec<&str> = m.errors.iter().map(|e| e.0.as_str()).collect();
+            let own_id = format!("s{}", m.ev.trim_start_matches("f."));
+            let names: Vec<&str> = m
+                .errors
+                .iter()
+                .filter(|e| match &e.1 {
+                    Some(id) => !delayed_ids.contains(id) || *id == own_id,
+                    None => true,
+                })
+                .map(|e| e.0.as_str())
+                .collect();
             let has_after = m.marks.iter().any(|a| a.first().map(|s| s.as_str()) == Some("'after'"));
             if expect.starts_with("Must(") {
                 let want = expect.trim_start_matches("Must(\"").trim_end_matches("\")");
                 if !names.contains(&want) {
                     verdict.violations.push(viol("C12", "C12.error-event", format!("fault '{}': expected {} on the internal queue, got {:?}", kind, want, names), format!("missing-{}:{}", want, kind)));
+                }
+            } else if expect.starts_with("Later(") {
+                let want = expect.trim_start_matches("Later(\"").trim_end_matches("\")");
+                // the fault is the k-th one: its <send> has the id s<k>
+                let k: String = m.ev.trim_start_matches("f.").to_string();
+                let sendid = format!("s{}", k);
+                let raised = macros.iter().any(|mm| mm.errors.iter().any(|e| e.0 == want && e.1.as_deref() == Some(sendid.as_str())));
+                let ended = session_end_seq(v.log, sid).is_some() && !v.out.completed_script;
+                if !raised && !ended && !v.sc.notes.contains_key("shutdown") && !v.sc.notes.contains_key("host-cancel") {
+                    verdict.violations.push(viol("C12", "C12.error-event", format!("fault '{}': the delayed send {} failed at delivery but {} with its send id never reached the internal queue", kind, sendid, want), format!("missing-{}:{}", want, kind)));
+                }
+                if !names.is_empty() && names.iter().any(|n| *n != want) {
+                    // an error at execution time is fine too (the platform may check the target early) - but not a different one later
                 }
             } else if expect == "EitherError" {
                 if names.is_empty() {
